@@ -586,11 +586,17 @@ import checks_misc  # noqa: E402  (registers C14, C15, C16)
 
 # ---------------------------------------------------------------------------------------------- replay
 def replay(pid, path):
+    """re-validate a recorded violating case with TLC and print its verdict (the log in the replay file is the evidence: the
+    events as recorded from the real code)"""
     rec = json.load(open(path))
     case = rec["case"]
-    out_mod = "Trace_Tucan"
-    res = tlc.run_sharded(out_mod, TRACE_CFG.format(rl=30, bf=6), [case], shards=1)
+    res = tlc.run_sharded("Trace_Tucan", TRACE_CFG.format(rl=30, bf=6), [case], shards=1)
+    bad = []
     for r in res:
         for p in r.printed:
             print(json.dumps(p))
+            bad += [c for c in p.get("viol", []) if c.startswith(pid + ":") or c in rec.get("clauses", [])]
+    if bad:
+        print(f"VIOLATION property={pid} replay={path}  [{';'.join(sorted(set(bad)))}]")
+        return 1
     return 0
